@@ -108,7 +108,7 @@ func TestSelfIewalkHandAnalysed(t *testing.T) {
 			}
 		}
 	}
-	for _, fam := range []string{"choice3", "length", "stale-prefix", "oversize2048", "otherproc", "failure-truncated", "cause-ext-enum"} {
+	for _, fam := range []string{"choice3", "length", "stale-prefix", "oversize2048", "otherproc", "failure-truncated", "cause-ext-enum", "frag-zero"} {
 		if _, err := iewalk.ParsePDU(garble(refamf.Fault{Garbage: fam, PrefixLen: 3}, good, good)); err == nil {
 			t.Fatalf("garbage family %s accepted", fam)
 		}
